@@ -149,9 +149,22 @@ def eliminate_guards(hb):
                 continue                      # has an else branch
             inner = st[o + 1:c].strip()
             mm = re.fullmatch(r'return\s+(.*?);?', inner, re.S)
-            if not mm or re.search(r'\breturn\b', mm.group(1)):
+            if mm and not re.search(r'\breturn\b', mm.group(1)):
+                hit = (a, b, st[:o].rstrip(), mm.group(1).strip())
+                break
+            # `if C { S1; ...; Sn; return E; }`: the guard's own statements stay in front of its value
+            try:
+                ist = ex.split_statements(inner)
+            except ex.ExtractError:
                 continue
-            hit = (a, b, st[:o].rstrip(), mm.group(1).strip())
+            if len(ist) < 2:
+                continue
+            (la, lb, _lsemi) = ist[-1]
+            mm = re.fullmatch(r'return\s+(.*?);?', inner[la:lb].strip() , re.S)
+            prefix = inner[:la]
+            if not mm or re.search(r'\breturn\b', mm.group(1)) or re.search(r'\breturn\b', prefix) or inner[lb:].strip().strip(';').strip():
+                continue
+            hit = (a, b, st[:o].rstrip(), prefix.rstrip() + ' ' + mm.group(1).strip())
             break
         if hit is None:
             return hb
